@@ -664,6 +664,10 @@ class Spectrum(Generic[_TData]):
         if array.ndim != 1:
             raise invalid_array_ndim("input array", "one-dimensional array", array.ndim)
 
+        if np.may_share_memory(array, self._data):
+            # The array views this spectrum's own buffer, which may be reallocated below.
+            array = array.copy()
+
         self._increase_capacity(len(array))
 
         offset = self._start_index + self._sample_count
@@ -683,7 +687,10 @@ class Spectrum(Generic[_TData]):
         # Take the samples to append before this spectrum changes: it may appear in its own list
         # of sources, and its sample_count and buffer change below.
         chunks = [
-            spectrum.data.copy() if spectrum is self else spectrum.data for spectrum in spectrums
+            spectrum.data.copy()
+            if (spectrum is self or np.may_share_memory(spectrum._data, self._data))
+            else spectrum.data
+            for spectrum in spectrums
         ]
 
         self._increase_capacity(sum(len(chunk) for chunk in chunks))
